@@ -820,7 +820,17 @@ impl img::DiskImage for Td0 {
             ans.comment_header = Some(CommentHeader::from_bytes(&optional_get_slice!(expanded,ptr,10,"comment header").to_vec()).expect("unreachable"));
             let comment_len = u16::from_le_bytes(ans.comment_header.as_ref().unwrap().data_length) as usize;
             // lines are separated by nulls in the file (see `to_bytes`)
-            ans.comment_data = Some(normalize_notes(&String::from_utf8_lossy(&optional_get_slice!(expanded,ptr,comment_len,"comment data").to_vec()).replace("\x00","\n")));
+            let mut notes = normalize_notes(&String::from_utf8_lossy(&optional_get_slice!(expanded,ptr,comment_len,"comment data").to_vec()).replace("\x00","\n"));
+            if notes.len() > u16::MAX as usize {
+                // bytes that are not UTF-8 take more room as replacement characters: keep what the length field can express
+                warn!("comment does not fit the 16 bit length field once converted to UTF-8, truncating");
+                let mut end = u16::MAX as usize;
+                while !notes.is_char_boundary(end) {
+                    end -= 1;
+                }
+                notes.truncate(end);
+            }
+            ans.comment_data = Some(notes);
             debug!("comment data `{}`",ans.comment_data.as_ref().unwrap());
             // CRC of comment
             if u16::from_le_bytes(ans.comment_header.as_ref().unwrap().crc)!=crc16(0,&expanded[14..22+comment_len]) {
@@ -1073,7 +1083,12 @@ impl img::DiskImage for Td0 {
                     return Err(Box::new(img::Error::MetadataMismatch));
                 }
                 // line ends are saved as nulls and loaded as line feeds: keep that one form in memory
-                self.comment_data = Some(normalize_notes(val));
+                let notes = normalize_notes(val);
+                if notes.len() > u16::MAX as usize {
+                    error!("TD0 notes are limited to {} bytes",u16::MAX);
+                    return Err(Box::new(img::Error::MetadataMismatch));
+                }
+                self.comment_data = Some(notes);
                 if self.comment_header.is_none() {
                     self.comment_header = Some(CommentHeader {
                         crc: [0,0], // computed in to_bytes
